@@ -49,6 +49,29 @@ func (w *World) signFlip(v, i, c, fi int) {
 	}
 }
 
+// WriteRaw writes arbitrary 64-bit integer values (given as bit patterns) through Write[S, D]; the logged input
+// values are the value codes of the S-typed inputs.
+func (w *World) WriteRaw(v int, sty string, bits []uint64) {
+	cnt := -1
+	var in []int64
+	res := run(func() { cnt, in = w.Views[v].WriteBits(sty, bits) })
+	if in == nil {
+		in = []int64{}
+	}
+	w.emit(&Event{Op: "Write", Args: []int{v + 1}, Ty: sty, In: in, Res: res, Cnt: cnt, Allocs: lastAllocs})
+}
+
+func writeBitsT[S, D signal.SignalTypes](bits []uint64, dst *signal.Buffer[D]) (int, []int64) {
+	src := make([]S, len(bits))
+	for i, b := range bits {
+		src[i] = fromU64[S](b)
+	}
+	begin()
+	n := signal.Write(src, dst)
+	end()
+	return n, codes(src)
+}
+
 // isFloatTy reports whether a harness element type is a floating-point type.
 func isFloatTy(ty string) bool { return kindClass(KindOf(ty)) == "Float" }
 
